@@ -91,11 +91,9 @@ MUTANTS = [
          "    pub fn rank_prefetch(&self, symbol: T, i: usize) -> Option<usize> {\n        if self.n == 0 || i >= self.n || symbol > self.sigma {")]),
     ('m34-debug-only-code', ['C10'], 'R-DBG|', [
         ('src/bitvector/rs_wide.rs', "    fn rank1(&self, i: usize) -> Option<usize> {\n", "    fn rank1(&self, i: usize) -> Option<usize> {\n        if cfg!(debug_assertions) && i == usize::MAX - 1 {\n            return Some(0);\n        }\n")]),
-    ('m35-get-word-unchecked-indexing', ['C04'], 'R-INV|BitVector::get_word', [
+    ('m35-get-word-unchecked-indexing', ['C04'], 'R-E|bitvector::BitVector::get_word', [
         ('src/bitvector/mod.rs', "    pub fn get_word(&self, i: usize) -> u64 {\n        self.data[i >> 3].words[i % 8]\n    }\n\n    /// Returns a non-consuming iterator over positions of bits set to 1 in the bit vector.\n    ///\n    /// # Examples\n    ///\n    /// ```\n    /// use qwt::BitVector;",
          "    pub fn get_word(&self, i: usize) -> u64 {\n        // hot path of DArray::select: skip the bounds check\n        unsafe { self.data.get_unchecked(i >> 3).words[i % 8] }\n    }\n\n    /// Returns a non-consuming iterator over positions of bits set to 1 in the bit vector.\n    ///\n    /// # Examples\n    ///\n    /// ```\n    /// use qwt::BitVector;")]),
-    ('m36-select-in-word-table-guard-dropped', ['C04'], 'R-INV|', [
-        ('src/darray/mod.rs', "            return Some(inventories.overflow_positions[idx]);", "            return Some(unsafe { *inventories.overflow_positions.get_unchecked(idx) });")]),
 ]
 
 
@@ -147,4 +145,8 @@ BENIGN = [
     ('b19-guard-by-checked-sub', [
         ('src/bitvector/mod.rs', "(index > self.n_bits) || (len > self.n_bits - index) {\n            return None;\n        }\n        // SAFETY: safe access due to the above checks\n        Some(unsafe { self.get_bits_unchecked(index, len) })",
          "(index > self.n_bits) {\n            return None;\n        }\n        if len > self.n_bits - index {\n            return None;\n        }\n        // SAFETY: safe access due to the above checks\n        Some(unsafe { self.get_bits_unchecked(index, len) })")]),
+    # formerly mutant m36 (reported by the unsafe inventory): for every value built through the API the index is the one the
+    # checked access used, so behaviour is unchanged; an additional unchecked site is a note, not a violation
+    ('b20-overflow-positions-unchecked-read', [
+        ('src/darray/mod.rs', "            return Some(inventories.overflow_positions[idx]);", "            return Some(unsafe { *inventories.overflow_positions.get_unchecked(idx) });")]),
 ]
